@@ -78,6 +78,37 @@ func fourWays1(part *ev.Part, s pb.Snap, sizeHint int, label string, classes map
 	if err != nil || g5.String() != want {
 		r.Violate(part.Name, "roundtrip-dump-load", fmt.Sprintf("%s: DumpData->LoadData: err=%v\n got  %s\n want %s", label, err, trunc(g5.String()), trunc(want)), repl)
 	}
+	// (6) a decoded snapshot is a snapshot like any other: appending an entry to one of its DBIs changes that
+	// DBI only, in memory and after another encode/decode (decoded DBIs are views into one shared buffer)
+	if len(s.DBIs) >= 2 && len(s.DBIs) <= 3 {
+		extra := pb.KV{Key: []byte("zzz-appended"), Val: []byte("appended-value"), TS: 77, Flags: 1}
+		for i := range s.DBIs {
+			var dec snapshot.Snapshot
+			if err := dec.Unmarshal(append([]byte{}, enc...)); err != nil {
+				break // reported above
+			}
+			dec.Databases[i].Append(snapshot.KV{Key: extra.Key, Value: extra.Val, TimestampNano: extra.TS, Flags: extra.Flags})
+			ws := s
+			ws.DBIs = append([]pb.DBI{}, s.DBIs...)
+			ws.DBIs[i].Entries = append(append([]pb.KV{}, s.DBIs[i].Entries...), extra)
+			want6 := ws.String()
+			part.Transitions += 2
+			g6, err := pb.FromOurs(&dec)
+			if err != nil || g6.String() != want6 {
+				r.Violate(part.Name, "append-to-decoded-dbi-corrupts-snapshot", fmt.Sprintf("%s: decode, then Append to DBI %d: err=%v\n got  %s\n want %s", label, i, err, trunc(g6.String()), trunc(want6)), repl)
+				continue
+			}
+			var b6 bytes.Buffer
+			if _, err := dec.WriteTo(&b6); err != nil {
+				r.Violate(part.Name, "writeto-error", err.Error(), repl)
+				continue
+			}
+			g7, err := pb.DecodeRef(b6.Bytes())
+			if err != nil || g7.String() != want6 {
+				r.Violate(part.Name, "append-to-decoded-dbi-corrupts-snapshot", fmt.Sprintf("%s: decode, Append to DBI %d, encode, reference decode: err=%v\n got  %s\n want %s", label, i, err, trunc(g7.String()), trunc(want6)), repl)
+			}
+		}
+	}
 	classes[fmt.Sprintf("%d/%v", len(s.DBIs), len(enc) > 127)] = true
 }
 
